@@ -281,6 +281,18 @@ def check_c03(w):
             if not good and _is_cancel_exc(e) and (
                     t['cancel'] is not None or t['spec'].get('_reenter_cancel')):
                 good = True
+                # "... or the cancellation error if the transfer was cancelled
+                # FIRST": with an exact snapshot that shows a failure already
+                # recorded at every cancel of this transfer, that failure is
+                # what result() has to raise
+                evs = [x for x in w.cancel_events if x['t'] == t['idx']]
+                if evs and all(x.get('exact') and x.get('status') == 'failed'
+                               and x.get('exc_before') is not None for x in evs) \
+                        and not t['spec'].get('_reenter_cancel') and not user_overrode(t):
+                    w.violation('C03', 'failure-overwritten',
+                                't%d had already failed with %r when it was cancelled (%s), yet '
+                                'result() raises %r' % (t['idx'], evs[0]['exc_before'],
+                                                        evs[0]['how'], e))
             if not good and t['spec'].get('_reenter_set_exception'):
                 good = True
             if not good:
@@ -308,6 +320,25 @@ def check_c03(w):
                     w.violation('C03', 'retried-nonretryable',
                                 't%d re-requested range %r after non-retryable %r'
                                 % (t['idx'], rng, bad))
+
+
+def check_c17_serial(w):
+    """First failure wins, end to end.  Only judged when everything ran on one
+    thread (serial mode), where the order in which failures were recorded is
+    the order in which the injected faults fired."""
+    if not getattr(w, 'serial', False):
+        return
+    for t in w.transfers:
+        oc = t['outcome']
+        if oc is None or oc[0] != 'exc' or user_overrode(t) or t['cancel'] is not None:
+            continue
+        fired = [f for f in fired_for(w, t) if f['exc'] is not None and
+                 f['spec']['site'] in ('s3', 'src', 'fs', 'dst')]
+        if len(fired) >= 2 and any(oc[1] is f['exc'] for f in fired[1:]) and \
+                oc[1] is not fired[0]['exc']:
+            w.violation('C17', 'first-failure-overwritten',
+                        't%d: %r was recorded first, result() raises the later %r'
+                        % (t['idx'], fired[0]['exc'], oc[1]))
 
 
 def _retryable_exc(e):
@@ -377,6 +408,11 @@ def check_c06_end(w):
         if t['type'] != 'download' or t['spec']['dst'] != 'path' or t['outcome'] is None:
             continue
         p = t['path']
+        if t.get('temps_at_result') and not removed_failed and not (
+                t['outcome'][0] == 'exc' and isinstance(t['outcome'][1], KeyboardInterrupt)):
+            w.violation('C06', 'temp-at-result',
+                        't%d: result() let the caller go (%s) while temporary file(s) %r still '
+                        'existed' % (t['idx'], t['outcome'][0], t['temps_at_result']))
         temps = w.fs.temps_of(p)
         if temps and not removed_failed:
             w.violation('C06', 'temp-left',
@@ -835,8 +871,12 @@ def check_c13_e2e(w):
             # download stream is never closed by the library: each one that is
             # active in the window may keep a tail below the threshold
             # uncharged for good.
-            ups = sum(1 for s in act if s[0] == 'up')
-            downs = [s for s in act if s[0] != 'up']
+            # (with io_chunksize >= the batching threshold every download read
+            # is charged - for the amount asked - before it is made: such
+            # streams never hold uncharged bytes either)
+            charged_first = cfg['io_chunksize'] >= thr
+            ups = sum(1 for s in act if s[0] == 'up' or charged_first)
+            downs = [s for s in act if s[0] != 'up' and not charged_first]
             nact = min(ups, conc) + len(downs)
             burst = 3 * (min(ups, conc) * (thr + biggest) +
                          sum(thr + maxread[s] for s in downs))
@@ -859,7 +899,7 @@ def check_c11_end(w):
 
 ALL = [check_kernel, check_effects, check_c03, check_c05, check_c06_end,
        check_c07, check_c08, check_c09, check_c10_end, check_c12_quiescence,
-       check_c18, check_c13_e2e]
+       check_c18, check_c13_e2e, check_c17_serial]
 
 
 def evaluate(w):
